@@ -22,6 +22,7 @@ func scenarios(tier string) []engine.Scenario {
 	scs = append(scs, gen...)
 	scs = append(scs, roundTripScenarios(tier)...)
 	scs = append(scs, jsonScenarios(tier)...)
+	scs = append(scs, retainedScenarios(tier)...)
 	// scenarios that may sit in the watchdog horizon go last, one per worker slot
 	scs = append(scs, slowA...)
 	scs = append(scs, slowG...)
@@ -32,7 +33,7 @@ func main() {
 	engine.Main(engine.Check{
 		ID:    "C19",
 		Level: "exploration",
-		Rule:  "One leaf = one parameter literal (or one generator request, one shipped set). Item 1: families LogN x ring type, prime catalogue (NTT-friendly primes of every bit length, first/last of 58..64 bits, around 2^64/6, non-NTT-friendly, composites, Carmichael, strong pseudoprimes, 0, 1) x position in Q/P, duplicate/overlapping lists, LogQ/LogP of every size -1..65, LogNthRoot, every secret/error distribution kind, BGV t residue classes, CKKS LogDefaultScale -1..130; each through the public constructor under recover + watchdog; accepted contexts go through NTT round trip/product, rescale on boundary integers, secret-key encryption with the phase recomputed over Z, scheme encode/decode. Item 2: every (LogNthRoot, size, count) through GenModuli and the generator modes. Item 3: catalogue of parameter sets through literal/JSON/binary and derived quantities. Item 4: every exported literal (source scan == direct references). distinct_nontrivial counts (family, accepted/rejected, literal) classes.",
+		Rule:  "One leaf = one parameter literal (or one generator request, one shipped set). Item 1: families LogN x ring type, prime catalogue (NTT-friendly primes of every bit length, first/last of 58..64 bits, around 2^64/6, non-NTT-friendly, composites, Carmichael, strong pseudoprimes, 0, 1) x position in Q/P, duplicate/overlapping lists, LogQ/LogP of every size -1..65, LogNthRoot, every secret/error distribution kind, BGV t residue classes, CKKS LogDefaultScale -1..130; each through the public constructor under recover + watchdog; accepted contexts go through NTT round trip/product, rescale on boundary integers, secret-key encryption with the phase recomputed over Z, scheme encode/decode. Item 2: every (LogNthRoot, size, count) through GenModuli and the generator modes. Item 3: catalogue of parameter sets through literal/JSON/binary and derived quantities. Item 4: every exported literal (source scan == direct references). Retained objects (retained.go): after every constructor (rlwe/ckks/bgv from literal with explicit and generated chains, rlwe.NewParameters, bgv.NewParameters, ring.NewRing, the decoders, bootstrapping.NewParametersFromLiteral) one leaf per input the caller may legally write to afterwards (each slice, pointer field, scale, byte buffer) and per value a getter handed out: fingerprint of every getter/encoding unchanged, Q()/P() coherent with RingQ()/RingP(), Equal to a fresh construction, codec round trip unchanged. distinct_nontrivial counts (family, accepted/rejected, literal) classes.",
 		Assumptions: []string{
 			"checks/c19/security128.json is the trusted base of the security clause: HE.org 2018 Table 1 (uniform ternary, 128-bit classical) for LogN 10..15; for LogN=16 and the sparse classes only bounds stated in the repository (cited per row) or, where none exists, the largest shipped value as a regression guard (kind=largest-shipped vouches for nothing)",
 			"fixed-weight ternary secrets with H >= N/4 and probabilistic ternary secrets are judged against the standard's uniform-ternary column; the conjugate-invariant ring of degree N is judged as dimension N",
@@ -50,7 +51,7 @@ func main() {
 				"accepted=accept/primes", "rejected=accept/primes", "prime=ntt61bit-last", "prime=ntt-above-2^64/6", "prime=carmichael-1729", "prime=value-0",
 				"list=duplicate-in-Q", "list=Q-and-P-share-a-modulus", "size=60@0", "size=61@1", "size=64@0", "nthroot=6", "nthroot=62",
 				"dist=Xs=ternary-H=N", "dist=Xe=gaussian-3.2", "dist-invalid=Xs=ternary-H=N+1", "dist-invalid=Xe=gaussian-sigma<0", "bgv-t=t=q0", "bgv-t=t-just-above-q0/2", "bgv-t=17(order16)", "bgv-big-t=61", "ckks-scale=0", "ckks-scale=128", "ckks-scale=129",
-				"ckks-encode=checked", "bgv=mulrelin-checked", "btp=ordinary", "btp=S2C-depth=LogSlots", "btp-defaults=SlotsToCoeffs=min(3,LogSlots)x39", "btp-defaults=all-of-the-above", "long-chain=M=33", "long-chain=M=64", "long-chain=P-last=Q-first", "long-chain=valid", "json=own-encoding", "json=own-encoding-into-used-receiver", "json=unknown-field", "json=Xs-unknown-type", "accepted=accept/btp", "rejected=accept/btp", "gen=generated", "gen-literal=ci-own+4", "gen-literal=standard-own+4", "gen-literal=ci-unset", "generator=upstream", "generator=downstream", "generator=alternating", "generator=exhausted-with-error",
+				"ckks-encode=checked", "bgv=mulrelin-checked", "btp=ordinary", "btp=S2C-depth=LogSlots", "btp-defaults=SlotsToCoeffs=min(3,LogSlots)x39", "btp-defaults=all-of-the-above", "long-chain=M=33", "long-chain=M=64", "long-chain=P-last=Q-first", "long-chain=valid", "json=own-encoding", "json=own-encoding-into-used-receiver", "json=unknown-field", "json=Xs-unknown-type", "accepted=accept/btp", "rejected=accept/btp", "gen=generated", "retained=literal.Q", "retained=literal.P", "retained=literal.LogQ", "retained=returned-Q()", "retained=literal.CoeffsToSlots", "retained=json-buffer", "gen-literal=ci-own+4", "gen-literal=std-own+4", "gen-literal=ci-unset", "generator=upstream", "generator=downstream", "generator=alternating", "generator=exhausted-with-error",
 				"exhausted=NextUpstreamPrime", "exhausted=NextDownstreamPrime", "exhausted=NextAlternatingPrime",
 				"roundtrip=rlwe", "roundtrip=NTTFlag=false", "roundtrip=StandardParameters-of-conjugate-invariant", "roundtrip=bgv", "roundtrip=ckks", "security=catalogue", "security=claim-checked", "security=kind=standard", "security=kind=repo-statement", "security=class=H32"}
 		},
